@@ -62,7 +62,8 @@ func VerifOpenRelation(dbName string, autoFlush bool, cacheCap int) (*RelationSe
 		return nil, err
 	}
 	if cacheCap > 0 {
-		fs.cache = NewLRU(cacheCap)
+		// the capacity of the store's own cache: whatever newFileStore wired to it stays
+		fs.cache.maxNodes = cacheCap
 	}
 	if err := fs.open(); err != nil {
 		return nil, err
